@@ -681,3 +681,61 @@ def rule_disj(ctx: Ctx) -> RuleResult:
             res.ok(f"path configuration {rid}", f"{len(names) * (len(names) - 1) // 2} template pairs: no concrete path is accepted by two templates")
     res.floor(n_pairs, 50, "template pairs compared")
     return res
+
+
+def rule_sidamb(ctx: Ctx) -> RuleResult:
+    """C03 'parent / last-value gives back the Sid' and C02 'rebuilding from the string': a typed Sid whose string an EARLIER
+    sid template accepts as well cannot be rebuilt from its string (Sid(string) and `parent / value` answer with the earlier
+    type).  Decided on the regular expressions of the final sid templates by NFA product emptiness; reported per group of
+    templates that accept a common string, once for concrete strings and once for search strings ('*', '>')."""
+    from .. import nfa
+
+    res = RuleResult("R-SIDAMB")
+    tabs = sid_tables(ctx)
+    final = tabs["final"]
+    names = list(final)
+    rx = {}
+    for t in names:
+        rx[t] = _resolva_regex(final[t])[0]
+    depth = {t: final[t].count("/") for t in names}
+    n_pairs = 0
+    concrete_shadowed: Set[str] = set()
+    for kind, forbidden in (("concrete", "*><,"), ("search", ",")):
+        shadowed: Dict[str, List[Tuple[str, str]]] = {}
+        for i, a in enumerate(names):
+            for b in names[i + 1:]:
+                if depth[a] != depth[b]:
+                    continue
+                n_pairs += 1
+                try:
+                    w = nfa.witness_of_intersection(rx[a], rx[b], forbidden)
+                except nfa.Unsupported as e:
+                    raise AnalysisError(f"R-SIDAMB: sid template '{a}' or '{b}' uses a construct outside the supported subset: {e}")
+                if w is not None:
+                    shadowed.setdefault(b, []).append((a, w))
+        if kind == "search":
+            # one finding for the whole set of types whose search strings an earlier template accepts as well (search symbols are
+            # accepted in every position of every hierarchy, so whole hierarchies shadow each other)
+            only_search = {b: lst for b, lst in shadowed.items() if b not in concrete_shadowed}
+            if only_search:
+                b0 = sorted(only_search)[0]
+                a0, w0 = only_search[b0][0]
+                res.violation(["sid_templates", "search", ",".join(sorted(only_search))],
+                              f"{len(only_search)} sid templates accept search strings that an earlier template accepts as well (e.g. "
+                              f"'{b0}' and '{a0}' both accept {w0!r}): for such a search Sid `parent / value` and Sid(string) answer with the "
+                              f"earlier type. Shadowed: {', '.join(sorted(only_search))}", "spil_hamlet_conf/spil_sid_conf.py", 0,
+                              site="search strings shared between templates")
+            else:
+                res.ok("sid templates (search strings)", "no further template is shadowed for search strings")
+            continue
+        concrete_shadowed = set(shadowed)
+        for b, lst in shadowed.items():
+            a, w = lst[0]
+            res.violation(["sid_templates", kind, b, a],
+                          f"sid template '{b}' ({kind} strings): the string {w!r} is also accepted by the earlier template '{a}': a '{b}' Sid "
+                          f"with this string is not given back by `parent / value` nor by Sid(string) (they answer '{a}')",
+                          "spil_hamlet_conf/spil_sid_conf.py", 0, site=f"{b} vs {a} ({kind})")
+        if not shadowed:
+            res.ok(f"sid templates ({kind} strings)", "no template is shadowed by an earlier one")
+    res.floor(n_pairs, 20, "same-depth sid template pairs compared")
+    return res
